@@ -188,7 +188,39 @@ func runC13(c *CaseCtx) (res CaseResult) {
 		zero = r.Intn(len(s.Inputs))
 		res.obs("cases_with_a_zero_valued_input", 1)
 	}
-	outs, _ := runScenarioX(c, s, r, reps, &res, func(in *Inst) { in.ZeroInput1 = zero + 1 }, func(in *Inst, o *Outcome) {
+	onceTarget := r.Intn(8) == 0
+	if onceTarget {
+		// a run-once TARGET that has already executed (every parameter was
+		// supplied directly to an earlier call): the call with the hopeless
+		// parameter fails with the same accurate error
+		s.Target.Once = true
+		for _, cv := range s.Convs {
+			if cv.Once {
+				onceTarget = false
+			}
+		}
+		if !onceTarget {
+			s.Target.Once = false
+		} else {
+			res.obs("cases_with_a_memoized_run_once_target", 1)
+		}
+	}
+	outs, _ := runScenarioX(c, s, r, reps, &res, func(in *Inst) {
+		in.ZeroInput1 = zero + 1
+		if onceTarget {
+			args := append([]am.Arg{}, in.ConvArgs...)
+			for i, p := range s.Target.In {
+				conc := concreteFor(p.Type, r)
+				src := Label{Name: p.Name, Type: conc, Sub: p.Sub}
+				if isIface(p.Type) {
+					src.Name = ""
+				}
+				args = append(args, InputArg(src, in.W.FreshInput(90, 600+i, src)))
+			}
+			DoCall(in.W, in.Target.Func, args)
+			res.Evals++
+		}
+	}, func(in *Inst, o *Outcome) {
 		inspect(in, o)
 		if r.Intn(4) != 0 {
 			return
